@@ -409,4 +409,52 @@ theorem h2_declares_html (s : Nat) :
 theorem error_status_in_domain :
     ∀ e ∈ Gen.C12.errorStatus, e.2 = 0 ∨ (100 ≤ e.2 ∧ e.2 ≤ 999) := by decide +kernel
 
+private theorem errorStatus_domain (code s : Nat) (h : errorStatus code = some s) : 100 ≤ s ∧ s ≤ 999 := by
+  unfold errorStatus at h
+  cases hf : Gen.C12.errorStatus.find? (fun e => e.1 == code) with
+  | none => rw [hf] at h; simp at h
+  | some e =>
+    rw [hf] at h
+    have hm := error_status_in_domain e (List.mem_of_find?_eq_some hf)
+    obtain ⟨c, v⟩ := e
+    cases v with
+    | zero => simp at h
+    | succ v =>
+      simp only [Option.some.injEq] at h
+      subst h
+      rcases hm with hm | hm
+      · simp at hm
+      · exact hm
+
+/-- **C12 (the HTTP/1 send site).** Whatever the error code, message and connection state: if
+    `Http1Server.send(ResponseProtocolError)` writes anything to the client, it is one complete, correctly framed
+    response whose status is the one the code maps to (100..999), with the page for exactly this message as body,
+    and the connection is closed right after it; and it never writes into a response that has already started. -/
+theorem h1_error_reply_wellformed (canWrite started : Bool) (code : Nat) (m b : Bytes)
+    (h : (h1ErrorReply canWrite started code m).1 = some b) :
+    ∃ s, errorStatus code = some s ∧ 100 ≤ s ∧ s ≤ 999 ∧ started = false ∧
+      refParse b = some (expected s (formatError s m)) ∧ (h1ErrorReply canWrite started code m).2 = true := by
+  unfold h1ErrorReply at h ⊢
+  cases canWrite with
+  | false => simp at h
+  | true =>
+    simp only [Bool.not_true, Bool.false_eq_true, if_false] at h ⊢
+    cases hs : errorStatus code with
+    | none => rw [hs] at h; simp at h
+    | some s =>
+      rw [hs] at h
+      simp only at h ⊢
+      cases started with
+      | true => simp at h
+      | false =>
+        simp only [Bool.false_eq_true, if_false, Option.some.injEq] at h ⊢
+        subst h
+        have hd := errorStatus_domain code s hs
+        exact ⟨s, rfl, hd.1, hd.2, trivial, page_wellformed s m hd, trivial⟩
+
+-- a code without status (KILL = 7) closes without a page; a started response is never written into
+example : h1ErrorReply true false 7 [0x3c] = (none, true) ∧ h1ErrorReply true true 1 [0x3c] = (none, true) ∧
+          h1ErrorReply false false 1 [0x3c] = (none, false) ∧ (h1ErrorReply true false 3 [0x3c]).1.isSome = true := by
+  decide +kernel
+
 end MitmVerif.Props.C12
